@@ -83,6 +83,20 @@ pub fn generate(tier: &str, rng: &mut Prng) -> Vec<Case> {
                 ops.push(Case::new(format!("cplx_split_of_fft {}", cfmt(&real_vec(&c)))));
             }
             ops.push(Case::new(format!("cplx_split_of_fft {}", cfmt(&real_vec(&a)))));
+            // odd-indexed coefficients many orders of magnitude below the even-indexed ones (and the other way round): the
+            // small half must come out of the split with its own relative accuracy, not be treated as cancellation noise
+            if k < 4 {
+                let e = [24, 30, 40, 17][k as usize];
+                let sc = 2f64.powi(-e);
+                let mixed: Vec<(f64, f64)> = (0..n)
+                    .map(|i| {
+                        let v = rng.range(-(1 << 14), 1 << 14) as f64;
+                        (if (i % 2 == 1) == (k % 2 == 0) { v * sc } else { v }, 0.0)
+                    })
+                    .collect();
+                ops.push(Case::new(format!("cplx_split_of_fft {}", cfmt(&mixed))));
+                ops.push(Case::new(format!("cplx_roundtrip {}", cfmt(&mixed))));
+            }
             // a transform-domain vector: complex entries
             let f: Vec<(f64, f64)> = (0..n).map(|_| (rng.range(-1 << 20, 1 << 20) as f64 / 64.0, rng.range(-1 << 20, 1 << 20) as f64 / 64.0)).collect();
             ops.push(Case::new(format!("cplx_split {}", cfmt(&f))));
@@ -190,6 +204,16 @@ pub fn oracle(op: &[&str], out: &str) -> Verdict {
             let fo = falcon_rust::verif_hooks::cplx_fft(&odd);
             let p: Vec<&str> = out.split(' ').collect();
             let tol = eps * l2(&a).max(1.0) * (a.len() as f64).sqrt();
+            // each half also against its own scale when the halves differ by orders of magnitude: the error of the split
+            // is a rounding error of the transform of the large half (eps * its norm), which must not swallow the small half
+            let (ne, no) = (l2(&even), l2(&odd));
+            if ne > 0.0 && no > 0.0 && (ne / no > 1e6 || no / ne > 1e6) {
+                let (small_got, small_want, small_norm, big_norm) = if ne < no { (cparse(p[0]), fe.clone(), ne, no) } else { (cparse(p[1]), fo.clone(), no, ne) };
+                let t = (eps * big_norm * (a.len() as f64).sqrt() * 2f64.powi(-20)).max(eps * small_norm * (a.len() as f64).sqrt());
+                if close(&small_got, &small_want, t.max(big_norm * 2f64.powi(-50) * (a.len() as f64))).is_some() {
+                    return Verdict::Fail("split(fft(a)): the half with the small coefficients is lost in the other half's rounding".into());
+                }
+            }
             match (close(&cparse(p[0]), &fe, tol), close(&cparse(p[1]), &fo, tol)) {
                 (None, None) => Verdict::Pass,
                 _ => Verdict::Fail("split(fft(a)) != (fft(a_even), fft(a_odd))".into()),
